@@ -132,6 +132,59 @@ fn thread_history() -> Option<String> {
             return Some("a panicking appender did not unwind out of Logger::log".to_string());
         }
     }
+    // (c) an appender of one logger hands the record it received (the same &Record) on to a SECOND logger: for that
+    // logger it is a record like any other
+    {
+        static FWD_CALLS: AtomicUsize = AtomicUsize::new(0);
+        static SECOND: OnceLock<Arc<log4rs::Logger>> = OnceLock::new();
+        static FIRST: OnceLock<Arc<log4rs::Logger>> = OnceLock::new();
+        #[derive(Debug)]
+        struct Count;
+        impl log4rs::append::Append for Count {
+            fn append(&self, _r: &log::Record) -> anyhow::Result<()> {
+                FWD_CALLS.fetch_add(1, Ordering::SeqCst);
+                Ok(())
+            }
+            fn flush(&self) {}
+        }
+        #[derive(Debug)]
+        struct Forward;
+        impl log4rs::append::Append for Forward {
+            fn append(&self, r: &log::Record) -> anyhow::Result<()> {
+                if let Some(b) = SECOND.get() {
+                    b.log(r);
+                }
+                Ok(())
+            }
+            fn flush(&self) {}
+        }
+        let second = SECOND.get_or_init(|| {
+            let config = Config::builder()
+                .appender(Appender::builder().build("count", Box::new(Count)))
+                .appender(Appender::builder().build("count2", Box::new(Count)))
+                .logger(Logger::builder().appender("count2").build("fwd", log::LevelFilter::Trace))
+                .build(Root::builder().appender("count").build(log::LevelFilter::Trace))
+                .expect("second config");
+            Arc::new(log4rs::Logger::new_with_err_handler(config, Box::new(|_e: &anyhow::Error| {})))
+        });
+        let _ = second;
+        let first = FIRST.get_or_init(|| {
+            let config = Config::builder()
+                .appender(Appender::builder().build("forward", Box::new(Forward)))
+                .build(Root::builder().appender("forward").build(log::LevelFilter::Trace))
+                .expect("first config");
+            Arc::new(log4rs::Logger::new_with_err_handler(config, Box::new(|_e: &anyhow::Error| {})))
+        });
+        FWD_CALLS.store(0, Ordering::SeqCst);
+        first.log(&log::Record::builder().level(log::Level::Info).target("fwd::x").args(format_args!("f")).build());
+        let n = FWD_CALLS.load(Ordering::SeqCst);
+        if n != 2 {
+            return Some(format!(
+                "a record handed on by an appender of one logger to a second logger: {} of the 2 deliveries the second logger's configuration prescribes",
+                n
+            ));
+        }
+    }
     DEEP_CALLS.store(0, Ordering::SeqCst);
     logger.log(&log::Record::builder().level(log::Level::Error).target("deep").args(format_args!("12")).build());
     let n = DEEP_CALLS.load(Ordering::SeqCst);
@@ -211,10 +264,16 @@ fn run(case: &Val) -> Val {
         let p = p.l();
         let target = p[0].str();
         rec.lock().unwrap().clear();
+        // module path, file and line name a configured logger (another one for every probe): only the target routes
+        let lgs = c[2].l();
+        let decoy: Option<String> = lgs.get(out.len() % lgs.len().max(1)).map(|lg| lg.l()[0].str());
         logger.log(
             &log::Record::builder()
                 .level(level(p[1].n()))
                 .target(&target)
+                .module_path(decoy.as_deref())
+                .file(decoy.as_deref())
+                .line(Some(out.len() as u32))
                 .args(format_args!("m"))
                 .build(),
         );
